@@ -255,10 +255,14 @@ def work(p):
                         res.sample({"module": m.name, "k": k, "rewriter": rw, "flag": flag, "calls": len(records)}, cap=1)
             # the store may have been written under a larger limit than the one in force at stub time
             for k2 in spec.get("cross_k", {}).get(str(k), []):
-                rc, text, err = cli(["-c", f"vf.mon.cfg:K{k2}_NoOpRewriter", "stub", m.name])
-                res6.count("cross_limit_stubs")
-                if rc == 0:
-                    judge_c06(res6, text, db, k2, dict(wit0, traced_with_limit=k, stub_limit=k2, cross_limit=True), cross=f"traced at {k}, stub at {k2}")
+                # every way of choosing the rewriter: configuration (none / default chain) and the CLI switch that disables it
+                for g, rw in (([], "NoOpRewriter"), ([], "DEFAULT"), (["--disable-type-rewriting"], "DEFAULT"), (["--disable-type-rewriting"], "NoOpRewriter")):
+                    rc, text, err = cli(g + ["-c", f"vf.mon.cfg:K{k2}_{rw}", "stub", m.name])
+                    res6.count("cross_limit_stubs")
+                    res6.seen("cross_limit_modes", f"{' '.join(g) or 'no-flag'}|{rw}")
+                    if rc == 0:
+                        judge_c06(res6, text, db, k2, dict(wit0, traced_with_limit=k, stub_limit=k2, cross_limit=True, rewriter=rw, global_flags=g),
+                                  cross=f"traced at {k}, stub at {k2}, {' '.join(g) or 'no flag'}, {rw}")
             os.remove(db)
         modrun.unload(m, d)
     os.environ.pop("MT_DB_PATH", None)
